@@ -125,6 +125,29 @@ def corruptions(jp):
     out.append((good_pos, bad_line, "error line forced to 1"))
     out.append((good_pos, bad_index, "error offset outside the text"))
     out.append((good_str, bad_s2, "second serialisation differs"))
+    # the lexer hook: one recorded field corrupted, one step removed
+    from .props import extra  # noqa: PLC0415
+    good_lex = extra.record_lexer(["$.a[?@.b == 'x' && count(@.*) > 1]"])[0]
+
+    def bad_pos(r):
+        r["events"][3]["pos"] += 1
+
+    def bad_stack(r):
+        for e in r["events"]:
+            if e["fs"]:
+                e["fs"] = []
+                break
+
+    def drop_step(r):
+        del r["events"][2]
+
+    def bad_token(r):
+        r["tokens"][2]["t"] = "WILD"
+
+    out.append((good_lex, bad_pos, "lexer: position of one step shifted"))
+    out.append((good_lex, bad_stack, "lexer: function call stack emptied in one step"))
+    out.append((good_lex, drop_step, "lexer: one hook event removed"))
+    out.append((good_lex, bad_token, "lexer: a token type changed"))
     return out
 
 
